@@ -254,6 +254,7 @@ def indicate_branches(g: Graph, model: Model) -> Graph:
                     :ARG0 b))
     """
     new_triples: List[BasicTriple] = []
+    variables = g.variables()
     for t in g.triples:
         push = next(
             (epi for epi in g.epidata.get(t, []) if isinstance(epi, Push)),
@@ -262,7 +263,8 @@ def indicate_branches(g: Graph, model: Model) -> Graph:
         if push is not None:
             if push.variable == t[2]:
                 new_triples.append((t[0], model.top_role, t[2]))
-            elif push.variable == t[0]:
+            elif push.variable == t[0] and t[2] in variables:
+                # only an edge can be written from its target's node
                 assert isinstance(t[2], str)
                 new_triples.append((t[2], model.top_role, t[0]))
         new_triples.append(t)
